@@ -114,6 +114,8 @@ def gen_inputs(name, rng):
         return [arr(FIN)]
     if name in ("s_clip_recip", "s_isfinite", "s_sqrt_abs", "s_max_argmax"):
         return [arr(VALS if name != "s_max_argmax" else FIN + [float("inf")])]
+    if name == "s_divide_where":
+        return list(two(FIN))
     if name in ("s_minimum_maximum", "s_divide", "s_arith", "s_isclose"):
         return list(two(VALS if name != "s_isclose" else FIN + [float("inf")]))
     if name in ("s_mask_assign", "s_compare_count"):
